@@ -61,6 +61,7 @@ from pydcop.dcop.relations import (
     RelationProtocol,
     filter_assignment_dict,
     find_arg_optimal,
+    find_optimal,
     optimal_cost_value,
 )
 from pydcop.infrastructure.computations import Message, VariableComputation, register
@@ -284,8 +285,12 @@ class MgmComputation(VariableComputation):
         if not self._neighbors:
             # If a variable has no neighbors, we must select its final value immediately
             # as it will never receive any message.
-            value, cost = optimal_cost_value(self._variable, self._mode)
-            self.value_selection(value, cost)
+            # No neighbor: the best value only depends on the variable's own
+            # cost and on its unary constraints, if any.
+            values, cost = find_optimal(
+                self._variable, {}, self.__utilities__, self._mode
+            )
+            self.value_selection(values[0], cost)
 
             if self.logger.isEnabledFor(logging.INFO):
                 self.logger.info(
